@@ -65,6 +65,8 @@ type Gen struct {
 	ctrlBias bool
 	// callBias: prefer calls, function literals, method values, returns (C09 profile)
 	callBias bool
+	// shadowBias: most declarations reuse a visible name (C08 profile)
+	shadowBias bool
 }
 
 func NewGen(r *rand.Rand, o GenOpts) *Gen { return &Gen{r: r, o: o} }
@@ -736,7 +738,7 @@ func (g *Gen) stmt(depth int) []*S {
 	case x < 18: // declaration
 		t := g.anyType()
 		name := g.fresh("v")
-		if g.r.Intn(5) == 0 { // shadow an existing name (not one of the current scope)
+		if g.r.Intn(5) == 0 || (g.shadowBias && g.r.Intn(3) > 0) { // shadow an existing name (not one of the current scope)
 			vs := g.visible()
 			if len(vs) > 0 {
 				c := vs[g.r.Intn(len(vs))]
